@@ -8,12 +8,14 @@
 
    kinds: fut_ok / fut_raise = Future(provider) whose provider returns / raises; const = ConstFuture;
           error = ErrorFuture; task_ok / task_raise = AsyncTask of a trivial @asynq() body;
+          task_susp = an AsyncTask that is suspended at a yield (blocked on a batch item) while the operations are
+          applied to it by a sibling task, and whose generator raises when it is closed;
           batch = a BatchBase subclass with one item, item = that item.
    outcome: <<"none">>, <<"val", x>>, <<"err", x>>;  values and errors are small integers. *)
 EXTENDS Naturals, Sequences, FiniteSets, TLC, Json, IOUtils
 
 Depth == IF "DEPTH" \in DOMAIN IOEnv THEN atoi(IOEnv.DEPTH) ELSE 4
-Kinds == {"fut_ok", "fut_raise", "const", "error", "task_ok", "task_raise", "batch", "item"}
+Kinds == {"fut_ok", "fut_raise", "const", "error", "task_ok", "task_raise", "task_susp", "batch", "item"}
 
 VARIABLES kind, outcome, epoch, runs, subs, notes, hist
 vars == <<kind, outcome, epoch, runs, subs, notes, hist>>
@@ -25,6 +27,7 @@ Natural(k) ==       \* the outcome the underlying computation produces
   CASE k = "fut_ok" -> <<"val", 5>>   [] k = "fut_raise" -> <<"err", 7>>
     [] k = "const" -> <<"val", 5>>    [] k = "error" -> <<"err", 7>>
     [] k = "task_ok" -> <<"val", 5>>  [] k = "task_raise" -> <<"err", 7>>
+    [] k = "task_susp" -> <<"val", 5>>
     [] k = "batch" -> <<"val", 0>>    [] k = "item" -> <<"val", 5>>
 Born(k) == k \in {"const", "error"}              \* complete from construction
 Sinking(k) == k \in {"const", "error"}           \* on_computed is a sinking hook: there is no completion to announce
@@ -69,7 +72,9 @@ Set(op, x) == /\ Len(hist) < Depth
               /\ IF outcome = None
                  THEN /\ outcome' = IF op = "set_value" THEN <<"val", x>> ELSE <<"err", x>>
                       /\ notes' = NotifyAll
-                      /\ hist' = Append(hist, Rec(op, x, <<"ok">>))
+                      \* completing a suspended task from outside closes its generator; if that cleanup raises, the
+                      \* caller may see the exception, but the outcome is set and every subscriber is notified
+                      /\ hist' = Append(hist, Rec(op, x, IF kind = "task_susp" THEN <<"any">> ELSE <<"ok">>))
                  ELSE /\ UNCHANGED <<outcome, notes>>
                       /\ hist' = Append(hist, Rec(op, x, <<"already">>))    \* FutureIsAlreadyComputed, nothing changes
               /\ UNCHANGED <<kind, epoch, runs, subs>>
